@@ -209,7 +209,7 @@ def classify_identity(e):
 
 
 def leaf_values(e):
-    """flatten phi alternatives"""
+    """flatten phi alternatives, distributing field/variant projections over them"""
     e2 = e
     while e2[0] in ("ref", "deref", "mut", "cell") or (e2[0] == "call" and flow.is_transparent_call(e2) and e2[3]):
         e2 = e2[3] if e2[0] == "cell" else (e2[3][0] if e2[0] == "call" else e2[1])
@@ -218,4 +218,8 @@ def leaf_values(e):
         for x in e2[1]:
             out.extend(leaf_values(x))
         return out
+    if e2[0] == "field":
+        return [("field", b, e2[2]) for b in leaf_values(e2[1])]
+    if e2[0] == "variant":
+        return [("variant", b, e2[2]) for b in leaf_values(e2[1])]
     return [e2]
